@@ -388,6 +388,21 @@ def findLoop (name : String) (id : Nat) (innermost : Bool) : List Frame → Nat 
 def findOriginatingFrame (name : String) (id : Nat) (innermost : Bool) (stack : List Frame) : Option Nat :=
   findLoop name id innermost stack 0 none
 
+/-- Two frames bind each of the `needed` names to the same object (or both leave it unbound). -/
+def lookupAgree (a b : Frame) (needed : List String) : Bool :=
+  needed.all (fun n => a.locals.lookup n == b.locals.lookup n)
+
+/-- Class of the known finding C14-frame-builtin-in-body: the frame `eval`/`locals` resolve to (innermost
+holder of the scope object) is not the user function's frame (outermost holder) *and* does not show
+one of the user variables the call needs the way the user's frame does. -/
+def bodyHidesName (name : String) (id : Nat) (needed : List String) (stack : List Frame) : Bool :=
+  match findOriginatingFrame name id true stack, findOriginatingFrame name id false stack with
+  | some i, some j =>
+    match stack[i]?, stack[j]? with
+    | some a, some b => !lookupAgree a b needed
+    | _, _ => false
+  | _, _ => false
+
 /-- `innermost=` used by the wrapper of a context-sensitive builtin (from the generated table). -/
 def innermostOf (b : String) : Option Bool := frameSearchInnermost.lookup (b ++ "_in_original_context")
 
